@@ -24,7 +24,7 @@ if os.environ.get("NOW_FAMILY_CHILD") != "1":
         sys.exit(2)
     t0 = time.time()
     try:
-        env = dict(os.environ, VERIF_E2E_REPO=wt, VERIF_E2E_NS=ns, NOW_FAMILY_CHILD="1")
+        env = dict(os.environ, VERIF_E2E_REPO=wt, VERIF_E2E_NS=ns, NOW_FAMILY_CHILD="1", VERIF_EVIDENCE_DIR="/verif/work/seed-evidence")
         r = sh(" ".join([sys.executable] + [os.path.abspath(__file__)] + sys.argv[1:]), cwd="/verif", env=env)
         lines = [l for l in r.stdout.splitlines() if l.startswith(("VIOLATION", "RESULT", "MACHINERY-ERROR", "  detail"))]
         detected = any(l.startswith("VIOLATION") for l in lines)
@@ -35,7 +35,6 @@ if os.environ.get("NOW_FAMILY_CHILD") != "1":
         print(prop, fams, os.path.basename(os.path.dirname(patch)), "detected", detected, f"{time.time() - t0:.0f}s")
     finally:
         sh("git checkout -- . && git clean -fdq", cwd=wt)
-        sh("git -C /verif checkout -- evidence")
     sys.exit(0)
 
 sys.path.insert(0, "/verif/engines/e2e")
